@@ -430,6 +430,36 @@ func c10MapAndHandler(id string, depth, subscribers, hcap, values int, seed int6
 				c.Violationf("resubscribe-copy", rep, "Subscribe / Unsubscribe / Subscribe(copy) on the same and on another publisher: the callback received %v, want [1 3 4 6]", g1)
 			}
 		}
+		// SubscribeOn(h) with deliveries still pending on a busy handler when the subscription list changes: what counts is
+		// the registration at the time of the Publish call, not at the time the handler gets round to it
+		{
+			hb := fpgo.Handler.NewByCh(make(chan func(), 16))
+			gate := make(chan struct{})
+			hb.Post(func() { <-gate })
+			pp := fpgo.PublisherNewGenerics[int]().SubscribeOn(hb)
+			var mu sync.Mutex
+			gotA, gotB, gotC := []int{}, []int{}, []int{}
+			sA := pp.Subscribe(fpgo.Subscription[int]{OnNext: func(v int) { mu.Lock(); gotA = append(gotA, v); mu.Unlock() }})
+			pp.Subscribe(fpgo.Subscription[int]{OnNext: func(v int) { mu.Lock(); gotB = append(gotB, v); mu.Unlock() }})
+			pp.Publish(1) // returns; the deliveries wait behind the gate
+			pp.Unsubscribe(sA)
+			pp.Subscribe(fpgo.Subscription[int]{OnNext: func(v int) { mu.Lock(); gotC = append(gotC, v); mu.Unlock() }})
+			pp.Publish(2)
+			close(gate)
+			fin := make(chan struct{})
+			hb.Post(func() { close(fin) })
+			select {
+			case <-fin:
+				mu.Lock()
+				if !eqSeq(gotA, []int{1}) || !eqSeq(gotB, []int{1, 2}) || !eqSeq(gotC, []int{2}) {
+					c.Violationf("subscribeOn:registration-at-publish-time", rep, "SubscribeOn(busy handler): A,B subscribed; Publish(1); Unsubscribe(A); Subscribe(C); Publish(2); handler released: A got %v (want [1]), B got %v (want [1 2]), C got %v (want [2])", gotA, gotB, gotC)
+				}
+				mu.Unlock()
+			case <-time.After(20 * time.Second):
+				c.Inconclusive("busy-handler probe did not finish in " + id)
+			}
+			hb.Close()
+		}
 		// SubscribeOn(h)
 		var h *fpgo.HandlerDef
 		if hcap == 0 {
@@ -543,7 +573,7 @@ func init() {
 		Meta: func(c *core.Ctx) core.Meta {
 			return core.Meta{
 				Level:       "exploration",
-				Rule:        "(a) every sequential re-entrant history with k <= 3 (thorough 4) subscribers whose callbacks are scripted from {nothing, unsubscribe self, unsubscribe j, subscribe a new one, publish on a derived publisher} x 1..3 publishes: per (publish, subscription) the count must be 1 if registered before and not touched during, 0 if unsubscribed before, <= 1 always, subscription order among the untouched; (b) 1..4 concurrent publishers x 1..4 subscribe/unsubscribe churners with call/return stamps (registered throughout => exactly 1, Unsubscribe returned before Publish called => 0, never twice, stable subscriptions in order), PRNG yields or a publisher parked at the snapshot / before a delivery while a Subscribe+Unsubscribe pair completes; (c) Map chains of depth 1..3 with two subscribers per level, values published on the root and directly on every derived level, subscription churn on derived publishers, and Subscribe / Unsubscribe / Subscribe(copy of the subscription value) on the same and another publisher; (d) SubscribeOn(h) with 1..4 subscribers and handler capacity 0..2: exactly once each, on h's goroutine; (b)-(d) repeated under -race (deciding for publisher.go frames). distinct_nontrivial = enumerated sequential histories + distinct concurrent scenarios / hook-trace signatures",
+				Rule:        "(a) every sequential re-entrant history with k <= 3 (thorough 4) subscribers whose callbacks are scripted from {nothing, unsubscribe self, unsubscribe j, subscribe a new one, publish on a derived publisher} x 1..3 publishes: per (publish, subscription) the count must be 1 if registered before and not touched during, 0 if unsubscribed before, <= 1 always, subscription order among the untouched; (b) 1..4 concurrent publishers x 1..4 subscribe/unsubscribe churners with call/return stamps (registered throughout => exactly 1, Unsubscribe returned before Publish called => 0, never twice, stable subscriptions in order), PRNG yields or a publisher parked at the snapshot / before a delivery while a Subscribe+Unsubscribe pair completes; (c) Map chains of depth 1..3 with two subscribers per level, values published on the root and directly on every derived level, subscription churn on derived publishers, and Subscribe / Unsubscribe / Subscribe(copy of the subscription value) on the same and another publisher; (d) SubscribeOn(h) with 1..4 subscribers and handler capacity 0..2: exactly once each, on h's goroutine, and with deliveries pending on a busy handler while subscriptions are removed/added (registration at the time of the Publish call decides); (b)-(d) repeated under -race (deciding for publisher.go frames). distinct_nontrivial = enumerated sequential histories + distinct concurrent scenarios / hook-trace signatures",
 				Assumptions: []string{"a subscription added or removed during a Publish may or may not see that value", "SubscribeOn uses a handler other than the publishing goroutine's own"},
 				Exhaustive:  true,
 			}
